@@ -53,6 +53,9 @@ CONFIGS = {
     # small-group configuration (EXHAUSTIVE_TEST_ORDER): standalone driver, tables recomputed at start
     "sg13": _cfg("gcc", ["-O1", "-g"], ["-DEXHAUSTIVE_TEST_ORDER=13", "-DVERIFY"], SAN, src="sgdriver.c", precomp=False, wrap=False),
     "sg199": _cfg("gcc", ["-O1", "-g"], ["-DEXHAUSTIVE_TEST_ORDER=199", "-DVERIFY"], SAN, src="sgdriver.c", precomp=False, wrap=False),
+    # the library as a shared object (production flags) + a public-API driver that watches its writable segment
+    "so": dict(_cfg("gcc", ["-O2", "-g"], STD + ["-DUSE_ASM_X86_64=1"], [], ["-lpthread"], src="sodriver.c", wrap=False), so=True),
+    "so_tsan": dict(_cfg("gcc", ["-O1", "-g"], STD + ["-DUSE_ASM_X86_64=1"], ["-fsanitize=thread"], ["-lpthread"], src="sodriver.c", wrap=False), so=True),
 }
 
 def tree_files(repo=None):
@@ -120,6 +123,8 @@ def command_line(name, cfg, out, repo=None, extra_defs=()):
     cmd += srcs + ["-o", out] + cfg["link"]
     if cfg["wrap"]:
         cmd += WRAP
+    else:
+        cmd.insert(1, "-DVSHIM_NO_WRAP=1")
     return cmd
 
 def build(name, repo=None, cfg=None, quiet=True):
@@ -127,7 +132,7 @@ def build(name, repo=None, cfg=None, quiet=True):
     repo = repo or REPO
     cfg = cfg or CONFIGS[name]
     th = tree_hash(repo)
-    key = hashlib.sha256((th + shim_hash() + repr(sorted(cfg.items())) + cc_version(cfg["cc"])).encode()).hexdigest()[:16]
+    key = hashlib.sha256((th + shim_hash() + repr(sorted(cfg.items())) + cc_version(cfg["cc"]) + " ".join(command_line(name, cfg, "OUT", repo))).encode()).hexdigest()[:16]
     d = os.path.join(CACHE, th[:16], name + "-" + key)
     out = os.path.join(d, "vshim")
     if os.path.exists(out):
@@ -140,6 +145,15 @@ def build(name, repo=None, cfg=None, quiet=True):
         tmp = out + ".tmp%d" % os.getpid()
         cmd = command_line(name, cfg, tmp, repo)
         t0 = time.time()
+        if cfg.get("so"):
+            # step 1: libsecp256k1.so from the library's own translation units; step 2: the driver against the public headers only
+            lib = os.path.join(d, "libsecp256k1.so")
+            c1 = [cfg["cc"]] + cfg["opt"] + cfg["defs"] + MODDEFS + cfg["extra"] + WARN + ["-fPIC", "-shared", "-Wl,-z,now", "-I" + os.path.join(repo, "src"), "-I" + os.path.join(repo, "include"),
+                  os.path.join(repo, "src", "secp256k1.c"), os.path.join(repo, "src", "precomputed_ecmult.c"), os.path.join(repo, "src", "precomputed_ecmult_gen.c"), "-o", lib]
+            r = subprocess.run(c1, capture_output=True, text=True)
+            if r.returncode != 0:
+                raise BuildError("build of %s (shared object) failed:\n%s\n%s" % (name, " ".join(c1), r.stderr[-4000:]))
+            cmd = [cfg["cc"]] + cfg["opt"] + cfg["extra"] + WARN + ["-I" + os.path.join(repo, "include"), os.path.join(VERIF, "shim", cfg["src"]), "-o", tmp, "-L" + d, "-lsecp256k1", "-Wl,-rpath," + d, "-ldl"] + cfg["link"]
         r = subprocess.run(cmd, capture_output=True, text=True)
         if r.returncode != 0:
             raise BuildError("build of config %s failed:\n%s\n%s" % (name, " ".join(cmd), r.stderr[-4000:]))
